@@ -23,6 +23,7 @@ import (
 
 	"github.com/projectcalico/calico/felix/ifacemonitor"
 	"github.com/projectcalico/calico/felix/ip"
+	"github.com/projectcalico/calico/felix/netlinkshim"
 	"github.com/projectcalico/calico/felix/netlinkshim/mocknetlink"
 	"github.com/projectcalico/calico/felix/routetable"
 	"github.com/projectcalico/calico/felix/routetable/ownershippol"
@@ -60,6 +61,9 @@ type drv struct {
 	log   *tracelog.Log
 	dp    *mocknetlink.MockNetlinkDataplane
 	rt    *routetable.RouteTable
+	// dump race (environment): the mock key of a route; the next route dump that delivers it is
+	// interrupted with EINTR after delivering everything, and the route is gone before the retry
+	raceKey string
 	ipv   int
 	table int
 }
@@ -86,6 +90,38 @@ func (d *drv) family() int {
 		return netlink.FAMILY_V6
 	}
 	return netlink.FAMILY_V4
+}
+
+// nlRace is the netlink handle handed to the RouteTable: the mock itself, except that a route dump can
+// be interrupted the way the kernel does it - EINTR because the table changed while it was dumped.  The
+// mock's own FailNextRouteListEINTR can only abort a dump of an unchanged table.
+type nlRace struct {
+	*mocknetlink.MockNetlinkDataplane
+	d *drv
+}
+
+func (w *nlRace) RouteListFilteredIter(family int, filter *netlink.Route, mask uint64, f func(netlink.Route) bool) error {
+	d := w.d
+	if d.raceKey == "" {
+		return w.MockNetlinkDataplane.RouteListFilteredIter(family, filter, mask, f)
+	}
+	routes, err := w.MockNetlinkDataplane.RouteListFiltered(family, filter, mask)
+	hit := false
+	for _, r := range routes {
+		if mocknetlink.KeyForRoute(&r) == d.raceKey {
+			hit = true
+		}
+		if !f(r) {
+			break
+		}
+	}
+	if err != nil || !hit {
+		return err
+	}
+	delete(d.dp.RouteKeyToRoute, d.raceKey)
+	d.raceKey = ""
+	d.log.Emit("env_routes", M{"kernel": d.kernel(), "during": "dump"})
+	return unix.EINTR
 }
 
 // ---- syntax conversion: JSON route <-> netlink.Route ---------------------------------------------
@@ -197,6 +233,7 @@ func (d *drv) start(t int, init M) {
 	}
 	removeExt, ownBird := b(init["removeExt"]), b(init["ownBird"])
 	d.dp = mocknetlink.New()
+	d.raceKey = ""
 	for _, l := range arr(init["links"]) {
 		lm := rec(l)
 		up := b(lm["up"])
@@ -224,7 +261,12 @@ func (d *drv) start(t int, init M) {
 		routetable.WithTimeShim(mt),
 		routetable.WithConntrackShim(d.dp),
 		routetable.WithConntrackCleanup(ct),
-		routetable.WithNetlinkHandleShim(d.dp.NewMockNetlink),
+		routetable.WithNetlinkHandleShim(func() (netlinkshim.Interface, error) {
+			if _, err := d.dp.NewMockNetlink(); err != nil {
+				return nil, err
+			}
+			return &nlRace{MockNetlinkDataplane: d.dp, d: d}, nil
+		}),
 	)
 	d.log.Reset(t, M{
 		"cfg": M{"ipv": d.ipv, "table": d.table, "defProto": int(unix.RTPROT_BOOT), "devSrc": "",
@@ -329,6 +371,14 @@ func (d *drv) step(op M) {
 	case "resync_iface":
 		d.rt.QueueResyncIface(tracelog.Str(op["name"]))
 		d.log.Emit("queue_resync_iface", M{"name": tracelog.Str(op["name"])})
+	case "dump_race":
+		_, dst, err := net.ParseCIDR(tracelog.Str(op["dst"]))
+		if err != nil {
+			panic(err)
+		}
+		r := netlink.Route{Table: tracelog.Int(op["table"]), Dst: dst, Priority: tracelog.Int(op["prio"])}
+		d.raceKey = mocknetlink.KeyForRoute(&r)
+		d.log.Emit("dump_race", M{"table": tracelog.Int(op["table"]), "dst": tracelog.Str(op["dst"]), "prio": tracelog.Int(op["prio"])})
 	case "fail":
 		var f mocknetlink.FailFlags
 		names := []string{}
@@ -508,12 +558,21 @@ func (d *drv) random(t int, rnd *rand.Rand) {
 		}
 		return universe[1+rnd.Intn(len(universe)-1)]
 	}
+	type want struct {
+		cls int
+		ifn string
+		tg  M
+	}
+	issued := []want{}
 	steps := 15 + rnd.Intn(25)
 	connFails := 0
 	for i := 0; i < steps; i++ {
-		c := rnd.Intn(20)
+		c := rnd.Intn(24)
 		if quiet && (c >= 9 && c <= 12) {
 			c = 8 // no environment route edits / full resyncs; more interface churn instead
+		}
+		if quiet && c == 22 {
+			c = 20
 		}
 		switch c {
 		case 0, 1:
@@ -531,9 +590,57 @@ func (d *drv) random(t int, rnd *rand.Rand) {
 				ts = append(ts, tg)
 			}
 			d.step(M{"op": "set_routes", "cls": cls, "ifn": ifn, "targets": ts})
+			for _, tg := range ts {
+				issued = append(issued, want{cls, ifn, tg.(M)})
+			}
 		case 2, 3, 4:
 			cls, ifn, tg := pick()
 			d.step(M{"op": "route_update", "cls": cls, "ifn": ifn, "target": tg})
+			issued = append(issued, want{cls, ifn, tg})
+		case 20:
+			// same class, same destination, another interface: a conflict decided by the tie-break inside a class
+			if len(issued) == 0 {
+				continue
+			}
+			w := issued[rnd.Intn(len(issued))]
+			if w.ifn == routetable.InterfaceNone || (bound && single(tracelog.Str(w.tg["dst"]))) {
+				continue
+			}
+			other := wlNames[rnd.Intn(len(wlNames))]
+			if other == w.ifn {
+				continue
+			}
+			tg := M{}
+			for k, v := range w.tg {
+				tg[k] = v
+			}
+			tg["gw"] = gws[rnd.Intn(len(gws))]
+			d.step(M{"op": "route_update", "cls": w.cls, "ifn": other, "target": tg})
+			issued = append(issued, want{w.cls, other, tg})
+		case 21:
+			// withdraw something that was asked for (often one side of a conflict)
+			if len(issued) == 0 {
+				continue
+			}
+			w := issued[rnd.Intn(len(issued))]
+			if rnd.Intn(4) == 0 {
+				d.step(M{"op": "set_routes", "cls": w.cls, "ifn": w.ifn, "targets": []any{}})
+			} else {
+				d.step(M{"op": "route_remove", "cls": w.cls, "ifn": w.ifn, "dst": w.tg["dst"], "prio": w.tg["prio"]})
+			}
+		case 22:
+			// a full resync whose route dump is interrupted after delivering a route that is gone before the retry
+			ks := d.kernel()
+			if len(ks) == 0 {
+				continue
+			}
+			k := ks[rnd.Intn(len(ks))]
+			if tracelog.Int(k["table"]) != 254 {
+				continue
+			}
+			d.step(M{"op": "dump_race", "table": k["table"], "dst": k["dst"], "prio": k["prio"]})
+			d.step(M{"op": "resync"})
+			d.step(M{"op": "apply"})
 		case 5:
 			cls, ifn, tg := pick()
 			d.step(M{"op": "route_remove", "cls": cls, "ifn": ifn, "dst": tg["dst"], "prio": tg["prio"]})
